@@ -417,8 +417,13 @@ func NewGraph(metaData *MetaData, build *BuildDirective, varPool *VarPool) (*Gra
 		}
 	}
 
-	// Second pass: Expand struct providers into synthetic field accessor providers
-	for _, structProvider := range structProviders {
+	// Second pass: Expand struct providers into synthetic field accessor providers.
+	// The source of a struct may itself be a field of another expanded struct, so an expansion whose
+	// source is not known yet is retried after the others: the order of the declaration does not matter.
+	deferred := 0 // expansions put back since the last one that succeeded
+	for pending := structProviders; len(pending) > 0; {
+		structProvider := pending[0]
+		pending = pending[1:]
 		if structProvider.StructType == nil {
 			return nil, fmt.Errorf("struct provider has nil StructType")
 		}
@@ -426,8 +431,22 @@ func NewGraph(metaData *MetaData, build *BuildDirective, varPool *VarPool) (*Gra
 		// Find the provider that provides this struct type
 		structTypeKey := typeKey(structProvider.StructType)
 		if _, ok := fnProviderMap[structTypeKey]; !ok {
+			if slices.ContainsFunc(pending, func(other *ProviderSpec) bool {
+				return slices.ContainsFunc(other.StructFields, func(field *StructFieldSpec) bool {
+					return field != nil && field.Type != nil && typeKey(field.Type) == structTypeKey
+				})
+			}) {
+				// a struct still waiting to be expanded has a field of this type: expand that one first
+				// (unless every waiting struct has already been put back once: they wait for each other)
+				if deferred <= len(pending) {
+					deferred++
+					pending = append(pending, structProvider)
+					continue
+				}
+			}
 			return nil, fmt.Errorf("no provider for struct type %s", structTypeKey)
 		}
+		deferred = 0
 
 		// Create synthetic field accessor providers for each exported field
 		for _, field := range structProvider.StructFields {
